@@ -173,7 +173,8 @@ pub fn tamperings(r: &mut Rng, h: &Honest, other: Option<&Honest>, positions: us
             // tokens signed by hand whose protected header carries the parameters that say where a key could be fetched from: the
             // resolver is asked with exactly that header (rule above), and the key it returns decides
             for (pname, hdr) in [("jku", json!({"alg": alg, "jku": "https://issuer.example/keys-2"})), ("x5u", json!({"alg": alg, "x5u": "https://issuer.example/cert"})), ("x5t", json!({"alg": alg, "x5t": "dGh1bWI", "x5t#S256": "dGh1bWIy"})),
-                                 ("cty-typ", json!({"alg": alg, "cty": "json", "typ": "vc+sd-jwt"})), ("all", json!({"alg": alg, "kid": "k-issuer", "jku": "https://a.example/k", "x5u": "https://a.example/c", "typ": "JWT", "cty": "x"}))] {
+                                 ("cty-typ", json!({"alg": alg, "cty": "json", "typ": "vc+sd-jwt"})), ("iss-replicated-other", json!({"alg": alg, "iss": "https://other-issuer.example", "sub": "s", "aud": "a"})),
+                                 ("iss-replicated-same", json!({"alg": alg, "iss": pl.get("iss").cloned().unwrap_or(json!("x"))})), ("unknown-members", json!({"alg": alg, "zz": [1, {"a": null}], "b64": true})), ("all", json!({"alg": alg, "kid": "k-issuer", "jku": "https://a.example/k", "x5u": "https://a.example/c", "typ": "JWT", "cty": "x"}))] {
                 let tok = sign_token(&hdr, &pl, issuer, alg);
                 let mut c = mk(&format!("control-header-parameter-{}", pname), h, bare(&tok).render(f.issue.fmt), Resolver::always(issuer), false);
                 c.expect = Expect::Accept;
@@ -259,6 +260,18 @@ pub fn tamperings(r: &mut Rng, h: &Honest, other: Option<&Honest>, positions: us
                     }
                     out.push(mk(&format!("forged-payload-{}-with-signature-{}", pn, sn), h, with_jwt(h, format!("{}.{}.{}", parts[0], p, sg)), honest_resolver.clone(), kb && r.chance(1, 2)));
                 }
+            }
+        }
+        // the protected header re-encoded (not re-signed) with a member added, each a JOSE parameter some code might look at before
+        // the signature is checked
+        if let Some(hdr) = h.pres.header() {
+            for (k, v) in [("crit", json!([])), ("crit", json!(["exp"])), ("crit", json!("x")), ("crit", json!([1])), ("b64", json!(false)), ("jwk", json!({})), ("x5c", json!([])), ("kid", json!(["a"])), ("zip", json!("DEF")), ("typ", json!(null)), ("iss", json!("x")), ("exp", json!(1))] {
+                if !all_positions && r.chance(1, 2) {
+                    continue;
+                }
+                let mut h2 = hdr.clone();
+                h2[k] = v.clone();
+                out.push(mk(&format!("header-reencoded-with-{}: {}", k, v), h, with_jwt(h, format!("{}.{}.{}", b64_json(&h2), parts[1], parts[2])), honest_resolver.clone(), kb && r.chance(1, 2)));
             }
         }
         // signature stripped / truncated
